@@ -8,7 +8,7 @@ KILLABLE = "openat,flock,read,pread64,write,rename,renameat,renameat2,fsync,clos
 def clone(store, binary=None):
     root = tempfile.mkdtemp(prefix="ergo-verif-")
     shutil.rmtree(root)
-    shutil.copytree(store.root, root)
+    shutil.copytree(store.root, root, symlinks=True)
     c = cmdrun.Store.__new__(cmdrun.Store)
     c.bin, c.go, c.root, c.own, c.dir = binary or store.bin, store.go, root, True, os.path.join(root, ".ergo")
     return c
